@@ -9,12 +9,10 @@ Ltac Zify.zify_post_hook ::= Z.div_mod_to_equations.
 Lemma flat_aty_ty : forall a, flat_aty a = true -> flat_ty (ty_of_aty a) = true.
 Proof. destruct a; cbn; congruence. Qed.
 
-Lemma flat_tgood : forall V a, flat_aty a = true ->
-  (match V, a with V1, APrim PF128 => false | _, _ => true end) = true ->
-  tgood V (ty_of_aty a) = true.
+Lemma flat_tgood : forall V a, flat_aty a = true -> tgood V (ty_of_aty a) = true.
 Proof.
-  intros V a Ha Hv. destruct a as [p| | |]; try discriminate; cbn [ty_of_aty].
-  - destruct V, p; try discriminate; reflexivity.
+  intros V a Ha. destruct a as [p| | |]; try discriminate; cbn [ty_of_aty].
+  - destruct V, p; reflexivity.
   - destruct V; reflexivity.
   - destruct V; reflexivity.
 Qed.
@@ -56,15 +54,13 @@ Record fam (V : ver) (t : adesc) : Prop := mkFam {
   fam_flat : forall m, In m (ad_members t) -> flat_aty (am_ty m) = true;
   fam_nopt : forall m, In m (ad_members t) -> m_opt (am_info m) = false;
   fam_nodup : nodup_z (aids (ad_members t)) = true;
-  fam_ids : forall m, In m (ad_members t) -> 0 <= am_id m < 268435456;
-  fam_codec : forall m, In m (ad_members t) ->
-     (match V, am_ty m with V1, APrim PF128 => false | _, _ => true end) = true
+  fam_ids : forall m, In m (ad_members t) -> 0 <= am_id m < 268435456
 }.
 
-Lemma fam_of : forall V t, flat_desc t = true -> codec_ok V t = true -> fam V t.
+Lemma fam_of : forall V t, flat_desc t = true -> fam V t.
 Proof.
-  intros V t Hf Hc. unfold flat_desc in Hf. apply andb_prop in Hf as [Hf Hid]. apply andb_prop in Hf as [Hfl Hnd].
-  rewrite forallb_forall in Hfl, Hid. unfold codec_ok in Hc. rewrite forallb_forall in Hc.
+  intros V t Hf. unfold flat_desc in Hf. apply andb_prop in Hf as [Hf Hid]. apply andb_prop in Hf as [Hfl Hnd].
+  rewrite forallb_forall in Hfl, Hid.
   constructor.
   - intros m Hm. specialize (Hfl m Hm). now apply andb_prop in Hfl as [? _].
   - intros m Hm. specialize (Hfl m Hm). apply andb_prop in Hfl as [_ H]. now apply negb_true_iff in H.
@@ -72,15 +68,14 @@ Proof.
   - intros m Hm. assert (Hin : In (am_id m) (aids (ad_members t))) by (unfold aids; now apply in_map).
     specialize (Hid _ Hin). unfold id_ok in Hid. apply andb_prop in Hid as [H1 H2].
     apply Z.leb_le in H1. apply Z.ltb_lt in H2. lia.
-  - intros m Hm. exact (Hc m Hm).
 Qed.
 
 (* XcdrProofs' member hypothesis for the writer's value *)
 Lemma writer_mem_hyp : forall V E t2 xv, fam V t2 ->
-  wt (ty_of t2) (VData xv) = true -> val_nonascii_char (VData xv) = false ->
+  wt (ty_of t2) (VData xv) = true ->
   mem_hyp V E (codec_members (ad_members t2)) xv.
 Proof.
-  intros V E t2 xv F Hwt Hna. unfold ty_of in Hwt.
+  intros V E t2 xv F Hwt. unfold ty_of in Hwt.
   destruct (wt_struct_parts _ _ _ Hwt) as [Hs [Hk Hgo]].
   split; [rewrite ids_codec; exact (fam_nodup V t2 F)|]. split.
   - intros _. apply Forall_forall. intros mt Hin. apply in_codec in Hin as [m [Hm ->]]. cbn [fst].
@@ -88,8 +83,8 @@ Proof.
   - rewrite Forall_forall in *. intros mt Hin. specialize (Hgo mt Hin).
     destruct (lookup (m_id (fst mt)) xv) as [v'|] eqn:Hl; [|exact Hgo].
     apply in_codec in Hin as [m [Hm ->]]. cbn [fst snd] in *.
-    apply rt_ty; [|exact Hgo|exact (nonascii_data xv Hna _ _ Hl)].
-    apply flat_tgood; [exact (fam_flat V t2 F m Hm)|exact (fam_codec V t2 F m Hm)].
+    apply rt_ty; [|exact Hgo].
+    apply flat_tgood. exact (fam_flat V t2 F m Hm).
 Qed.
 
 (* every member of the writer type has a value (no optional members) *)
@@ -173,15 +168,15 @@ Qed.
 
 (* ------------------------------------------------------ FINAL / APPENDABLE evolution *)
 Theorem evolution_prefix : forall V E tc t1 t2 xv,
-  flat_desc t1 = true -> flat_desc t2 = true -> codec_ok V t1 = true -> codec_ok V t2 = true ->
+  flat_desc t1 = true -> flat_desc t2 = true ->
   ad_ext t2 <> Mutable ->
   struct_assignable tc (cto_of t1) (cto_of t2) = Ok true ->
-  wt (ty_of t2) (VData xv) = true -> val_nonascii_char (VData xv) = false ->
+  wt (ty_of t2) (VData xv) = true ->
   exists bs d, encode V E (ty_of t2) (VData xv) = Ok bs /\
                decode (ty_of t1) bs = Ok (VData d) /\ projects t1 xv d = true.
 Proof.
-  intros V E tc t1 t2 xv Hf1 Hf2 Hc1 Hc2 Hx Has Hwt Hna.
-  pose proof (fam_of V t1 Hf1 Hc1) as F1. pose proof (fam_of V t2 Hf2 Hc2) as F2.
+  intros V E tc t1 t2 xv Hf1 Hf2 Hx Has Hwt.
+  pose proof (fam_of V t1 Hf1) as F1. pose proof (fam_of V t2 Hf2) as F2.
   destruct (assignable_shape tc t1 t2 Hf1 Hf2 Has) as [Hext Hshape].
   destruct t1 as [x1 n1 ms1], t2 as [x2 n2 ms2]. cbn [ad_ext ad_members] in *. subst x2.
   set (k := Nat.min (length ms1) (length ms2)) in *.
@@ -194,7 +189,7 @@ Proof.
   assert (Hi1 : incl a1 ms1) by apply firstn_incl. assert (Hi2 : incl a2 ms2) by apply firstn_incl.
   assert (Hj1 : incl r1 ms1) by apply skipn_incl.
   pose proof (Forall2_am_mmatch V _ _ a1 a2 F1 F2 Hi1 Hi2 HF) as HM.
-  pose proof (writer_mem_hyp V E _ xv F2 Hwt Hna) as HH. cbn [ad_members] in HH.
+  pose proof (writer_mem_hyp V E _ xv F2 Hwt) as HH. cbn [ad_members] in HH.
   rewrite Hms2, codec_members_app in HH.
   assert (Hcase : codec_members r1 = [] \/
                   (codec_members r2 = [] /\ x1 = Appendable /\ flat_members (codec_members r1) = true)).
@@ -274,9 +269,8 @@ Qed.
 (* ------------------------------------------------------------------ MUTABLE evolution *)
 Lemma prim_bytes_len : forall E k z, blen (prim_bytes E k z) <= 16.
 Proof.
-  intros E k z. destruct k; unfold prim_bytes; rewrite ?int_enc_blen; cbn [sk_bytes]; try lia.
-  - unfold utf8_char. repeat match goal with |- context [if ?c then _ else _] => destruct c end; cbn; lia.
-  - destruct (z =? 0); cbn; lia.
+  intros E k z. destruct k; unfold prim_bytes; rewrite ?int_enc_blen; cbn [sk_bytes]; try lia;
+    try (destruct (z =? 0)); cbn; lia.
 Qed.
 
 Lemma ser_prim_len : forall E k z pos bs p, ser_prim V2 E k z pos = Ok (bs, p) -> blen bs <= 19.
@@ -343,10 +337,10 @@ Proof.
 Qed.
 
 Lemma writer_whyp : forall E t2 xv, fam V2 t2 -> ids_u16 t2 = true ->
-  wt (ty_of t2) (VData xv) = true -> val_nonascii_char (VData xv) = false -> small_dyn xv = true ->
+  wt (ty_of t2) (VData xv) = true -> small_dyn xv = true ->
   whyp E (codec_members (ad_members t2)) xv.
 Proof.
-  intros E t2 xv F Hu Hwt Hna Hsm. unfold ty_of in Hwt.
+  intros E t2 xv F Hu Hwt Hsm. unfold ty_of in Hwt.
   destruct (wt_struct_parts _ _ _ Hwt) as [Hs [Hk Hgo]].
   split; [rewrite ids_codec; exact (fam_nodup V2 t2 F)|].
   intros k v Hl.
@@ -361,8 +355,7 @@ Proof.
   unfold am_id in Hid. rewrite Hid, Hl in Hgo.
   pose proof (flat_aty_ty _ (fam_flat V2 t2 F m Hm)) as Hft.
   split; [exact Hinc|]. split; [exact Hid|]. split.
-  { apply rt_ty; [|exact Hgo|exact (nonascii_data xv Hna _ _ Hl)].
-    apply flat_tgood; [exact (fam_flat V2 t2 F m Hm)|reflexivity]. }
+  { apply rt_ty; [|exact Hgo]. apply flat_tgood. exact (fam_flat V2 t2 F m Hm). }
   split; [now apply shift4_flat|]. split; [now apply lc5_flat|]. split.
   { unfold ids_u16 in Hu. rewrite forallb_forall in Hu.
     assert (Hin' : In k (aids (ad_members t2))) by (unfold aids; apply in_map_iff; exists m; now split).
@@ -370,21 +363,18 @@ Proof.
   intros pos bs p Hser. eapply flat_size; [exact Hft| |exact Hser]. exact (small_dyn_lookup xv k v Hsm Hl).
 Qed.
 
-Lemma codec_ok_v2 : forall t, codec_ok V2 t = true.
-Proof. intros. unfold codec_ok. apply forallb_forall. intros. reflexivity. Qed.
-
 Theorem evolution_mutable : forall E tc t1 t2 xv,
   flat_desc t1 = true -> flat_desc t2 = true -> ad_ext t2 = Mutable ->
   ids_u16 t1 = true -> ids_u16 t2 = true ->
   struct_assignable tc (cto_of t1) (cto_of t2) = Ok true ->
-  wt (ty_of t2) (VData xv) = true -> val_nonascii_char (VData xv) = false -> small_dyn xv = true ->
+  wt (ty_of t2) (VData xv) = true -> small_dyn xv = true ->
   exists bs d, encode V2 E (ty_of t2) (VData xv) = Ok bs /\
                decode (ty_of t1) bs = Ok (VData d) /\ projects t1 xv d = true.
 Proof.
-  intros E tc t1 t2 xv Hf1 Hf2 Hx Hu1 Hu2 Has Hwt Hna Hsm.
-  pose proof (fam_of V2 t1 Hf1 (codec_ok_v2 t1)) as F1. pose proof (fam_of V2 t2 Hf2 (codec_ok_v2 t2)) as F2.
+  intros E tc t1 t2 xv Hf1 Hf2 Hx Hu1 Hu2 Has Hwt Hsm.
+  pose proof (fam_of V2 t1 Hf1) as F1. pose proof (fam_of V2 t2 Hf2) as F2.
   destruct (assignable_shape tc t1 t2 Hf1 Hf2 Has) as [Hext Hshape].
-  pose proof (writer_whyp E t2 xv F2 Hu2 Hwt Hna Hsm) as HW.
+  pose proof (writer_whyp E t2 xv F2 Hu2 Hwt Hsm) as HW.
   destruct t1 as [x1 n1 ms1], t2 as [x2 n2 ms2]. cbn [ad_ext ad_members] in *. subst x2. subst x1.
   assert (Hty : forall mt1 mt2, In mt1 (codec_members ms1) -> In mt2 (codec_members ms2) ->
                   m_id (fst mt1) = m_id (fst mt2) -> snd mt1 = snd mt2).
